@@ -102,3 +102,23 @@ fn b_v9_export_template() {
     }
     std::mem::forget(p);
 }
+
+/// B.v9.total_size -- Template::get_total_size for up to 3 fields: the saturating sum of the field lengths
+#[kani::proof]
+#[kani::unwind(6)]
+fn b_v9_total_size() {
+    let n: usize = kani::any();
+    kani::assume(n <= 3);
+    let l: [u16; 3] = kani::any();
+    let mut fields = Vec::with_capacity(3);
+    let mut k = 0;
+    while k < n {
+        fields.push(TemplateField { field_type_number: 1, field_type: V9Field::InBytes, field_length: l[k] });
+        k += 1;
+    }
+    let t = Template { template_id: 256, field_count: n as u16, fields };
+    let mut want: u32 = 0;
+    let mut j = 0;
+    while j < n { want += l[j] as u32; j += 1; }
+    assert!(t.get_total_size() as u32 == if want > 65535 { 65535 } else { want });
+}
